@@ -54,6 +54,13 @@ def call_closure(w, clo, args, extra_hooks=None):
         return None
     if body is None or body.coroutine:
         return None
+    if clo[0] == "closure" and len(clo) > 3 and clo[3]:
+        from .inline import inlined
+        body = inlined(w.ctx.facts, body, skip=lambda cb: False, tag="closure-mono", subst=dict(clo[3]))
+    elif clo[0] == "fn" and body.kind in ("Fn", "AssocFn"):
+        # a function of the crate used as a value: with its own helpers looked through
+        from .inline import inlined
+        body = inlined(w.ctx.facts, body, skip=lambda cb: False, tag="fn-value")
     depth = getattr(w, "_cc_depth", 0)
     if depth > 3:
         return None
@@ -83,12 +90,45 @@ def call_closure(w, clo, args, extra_hooks=None):
     return None
 
 
+def resolved(w, env, clo):
+    """a closure value whose captured references are replaced by what they designate here (its body is walked
+    on an environment of its own)"""
+    if clo[0] == "closure":
+        ups = []
+        for k, x in clo[2]:
+            x = w.deref_val(env, x)
+            if x[0] == "closure":
+                x = resolved(w, env, x)     # a captured closure captures, too
+            ups.append((k, x))
+        return ("closure", clo[1], tuple(ups)) + tuple(clo[3:])
+    return clo
+
+
 def hooks():
     def h(w, bb, t, argv, env):
         nm = callee_name(t)
         d = t.get("def") or ""
         a0 = argv[0] if argv else CW.TOP
         v0 = w.deref_val(env, a0) if argv else CW.TOP
+        if re.search(r"<impl bool>::(then|then_some)$", nm) and len(argv) == 2:
+            c = w.deref_val(env, argv[0])
+            if not (CW.is_const(c) and c[1] in (0, 1, True, False)):
+                return None
+            if not c[1]:
+                return CW.adt("std::option::Option", "None", 0, [])
+            if nm.endswith("then_some"):
+                return CW.adt("std::option::Option", "Some", 1, [("0", w.deref_val(env, argv[1]))])
+            r = call_closure(w, resolved(w, env, w.deref_val(env, argv[1])), [])
+            return CW.adt("std::option::Option", "Some", 1, [("0", r)]) if r is not None else None
+        if re.search(r"ops::(Fn|FnMut|FnOnce)::(call|call_mut|call_once)$", nm) and len(argv) in (1, 2):
+            # a call of a closure / function held in a variable (a predicate passed down as `impl Fn(..)`)
+            clo = resolved(w, env, w.deref_val(env, argv[0]))
+            args = w.deref_val(env, argv[1]) if len(argv) == 2 else ("tuple", ())
+            if args == () or args == CW.const(()):
+                args = ("tuple", ())
+            if clo[0] in ("closure", "fn") and args[0] == "tuple":
+                return call_closure(w, clo, [w.deref_val(env, x) for x in args[1]])
+            return None
         # ---------------------------------------------------------------- constructors
         if re.search(r"vec::Vec::<T>::(new|with_capacity)$", nm):
             return lst(())
@@ -219,10 +259,7 @@ def hooks():
         if re.search(r"slice::<impl \[T\]>::(partition_point|binary_search_by)$", nm) and v0[0] == "list" and len(argv) > 1:
             # ordered searches on a known list: the closure is evaluated on every element (that its outcomes
             # are monotone along the list is a separate obligation, decided by engine.ordsearch)
-            clo = w.deref_val(env, argv[1])
-            if clo[0] == "closure":
-                # what the closure captured by reference is looked up here: its body is walked on an environment of its own
-                clo = ("closure", clo[1], tuple((k, w.deref_val(env, x)) for k, x in clo[2]))
+            clo = resolved(w, env, w.deref_val(env, argv[1]))
             outs = []
             for x in v0[1]:
                 r = call_closure(w, clo, [x])
@@ -231,16 +268,22 @@ def hooks():
                 outs.append(r)
             if nm.endswith("partition_point"):
                 k = 0
-                for r in outs:
-                    if not (CW.is_const(r) and r[1] in (0, 1, True, False)):
-                        return None
-                    if not r[1]:
+                if not all(CW.is_const(r) and r[1] in (0, 1, True, False) for r in outs):
+                    return None
+                bools = [bool(r[1]) for r in outs]
+                if any((not a) and b for a, b in zip(bools, bools[1:])):
+                    w.__dict__.setdefault("nonmonotone", []).append(("partition_point", tuple(bools)))
+                for r in bools:
+                    if not r:
                         break
                     k += 1
                 return CW.const(k)
+            if not all(r[0] == "adt" and r[1] == "std::cmp::Ordering" for r in outs):
+                return None
+            ranks = [{"Less": 0, "Equal": 1, "Greater": 2}.get(r[2], 9) for r in outs]
+            if any(a > b for a, b in zip(ranks, ranks[1:])):
+                w.__dict__.setdefault("nonmonotone", []).append(("binary_search_by", tuple(r[2] for r in outs)))
             for idx, r in enumerate(outs):
-                if not (r[0] == "adt" and r[1] == "std::cmp::Ordering"):
-                    return None
                 if r[2] == "Equal":
                     return CW.adt("std::result::Result", "Ok", 0, [("0", CW.const(idx))])
             return CW.adt("std::result::Result", "Err", 1, [("0", CW.TOP)])
@@ -263,7 +306,7 @@ def hooks():
         if re.search(r"slice::<impl \[T\]>::(iter|iter_mut)$|vec::Vec::<T, A>::(iter|iter_mut)$", nm) and v0[0] == "list":
             return itr(v0[1])
         if re.search(r"Iterator>?::(filter|map|filter_map|take_while|skip_while|inspect)$", nm) and v0[0] == "iter" and len(argv) > 1:
-            clo = w.deref_val(env, argv[1])
+            clo = resolved(w, env, w.deref_val(env, argv[1]))
             kind = nm.split("::")[-1]
             outl = []
             stopped = False
